@@ -45,14 +45,103 @@ def stateless_obligations(pr):
                           replay={'reproduced': bool(bad), 'observed': {'stores': bad}})
 
 
+def layout_regex_obligations(pr):
+    """regex-language obligations (all strings) on the layout regexes, each a necessary condition of the property; a
+    failing one is replayed natively on the line it describes"""
+    import os
+    import time
+    import z3
+    from pyvc.relang import to_re, group_re, SPACE, Untranslatable
+    from pyvc.replay import run_witness
+    m = Repo().modules['parser']
+    ws = z3.Star(SPACE)
+    x = z3.String('x')
+    anyc = z3.Star(z3.Intersect(z3.AllChar(z3.ReSort(z3.StringSort())), z3.Complement(z3.Re('\n'))))
+
+    def pat(name):
+        return ast.literal_eval(m.assigns[name].args[0])
+
+    def check(name, facts, builder, fn):
+        sv = z3.Solver()
+        sv.set('timeout', 20000)
+        sv.add(*facts)
+        t0 = time.time()
+        r = sv.check()
+        secs = time.time() - t0
+        if r == z3.unsat:
+            pr.add_obligation(name, 'unsat', 'z3', secs, function=fn)
+        elif r == z3.sat:
+            line = sv.model()[x].as_string() if sv.model()[x] is not None else ''
+            import re as _re
+            line = _re.sub(r'\\u\{([0-9a-fA-F]+)\}', lambda mm: chr(int(mm.group(1), 16)), line)
+            with_line, without = builder(line)
+            code = ('from bare_script.parser import parse_script, BareScriptParserError\n'
+                    'def P(t):\n    try:\n        return parse_script(t)\n    except BareScriptParserError as exc:\n        return "ERROR " + str(exc).splitlines()[0]\n'
+                    f'a = P({with_line!r})\nb = P({without!r})\n'
+                    'result = {"violates": a != b, "with_the_line": a, "without": b}\n')
+            res = run_witness(code)
+            pr.add_obligation(name, 'sat', 'z3', secs, function=fn, detail=f'line {line!r}', inputs={'text': with_line, 'reference': without},
+                              replay={'reproduced': bool(res.get('violates')), 'observed': res})
+        else:
+            pr.add_obligation(name, 'unknown', 'z3', secs, detail=sv.reason_unknown(), function=fn)
+    try:
+        COMMENT = to_re(pat('_R_SCRIPT_COMMENT'))
+        fn = 'parser._R_SCRIPT_COMMENT'
+        around = lambda line: ('a = 1\n' + line + '\nb = 2\n', 'a = 1\nb = 2\n')
+        check('C10.comment.whitespace-only-lines-are-skipped', [z3.InRe(x, ws), z3.Not(z3.Contains(x, z3.StringVal('\n'))), z3.Not(z3.InRe(x, COMMENT))], around, fn)
+        check('C10.comment.indented-comment-lines-are-skipped',
+              [z3.InRe(x, z3.Concat(ws, z3.Re('#'), anyc)), z3.Not(z3.Contains(x, z3.StringVal('\n'))), z3.Not(z3.InRe(x, COMMENT))], around, fn)
+        check('C10.comment.nothing-but-blank-and-comment-lines-is-skipped',
+              [z3.InRe(x, COMMENT), z3.Not(z3.InRe(x, z3.Union(ws, z3.Concat(ws, z3.Re('#'), z3.Full(z3.ReSort(z3.StringSort()))))))],
+              lambda line: ('a = 1\n' + line + '\nb = 2\n', 'a = 1\nb = 2\n'), fn)
+    except (Untranslatable, KeyError, ValueError) as e:
+        pr.add_obligation('C10.comment.pattern-in-the-translated-dialect', 'unknown', 'syntactic', 0.0, detail=str(e))
+    try:
+        # `return` takes an optional expression: a blank captured as that expression turns "return" plus trailing blanks
+        # into a syntax error
+        EXPR = group_re(pat('_R_SCRIPT_RETURN'), 'expr')
+        check('C10.return.the-optional-expression-group-is-never-blank',
+              [z3.InRe(x, EXPR), z3.InRe(x, z3.Plus(z3.Union(z3.Re(' '), z3.Re('\t'))))],
+              lambda blank: ('return ' + blank + '\n', 'return\n'), 'parser._R_SCRIPT_RETURN')
+    except (Untranslatable, KeyError, ValueError) as e:
+        pr.add_obligation('C10.return.pattern-in-the-translated-dialect', 'unknown', 'syntactic', 0.0, detail=str(e))
+
+
+def layout_bounded(pr, tier):
+    """bounded stand-in (never counted as proved): a fixed corpus of programs covering every statement form, each re-parsed
+    under CRLF, every chunking at line boundaries, blank/comment/whitespace-only lines inserted at every position (also
+    inside continued lines), indentation and trailing whitespace on every line, and a backslash break at every space
+    outside string literals"""
+    import os
+    from pyvc.replay import run_witness
+    here = os.path.dirname(os.path.dirname(os.path.abspath(__file__)))
+    with open(os.path.join(here, 'native', 'witness', 'layout_witness.py'), encoding='utf-8') as fh:
+        code = fh.read()
+    res = run_witness(code, timeout=600)
+    pr.bounded.append(f'layout invariance: bounded native check, {res.get("variants_checked")} layout variants of 12 corpus programs '
+                      '(CRLF, chunking, inserted blank/comment lines, indentation, trailing blanks, backslash breaks at every space)')
+    if res.get('violates'):
+        cx = res['counterexamples'][0]
+        pr.failures.append({'obligation': 'C10.bounded.layout-variant-parses-to-the-same-model', 'function': 'parser.parse_script', 'path': '',
+                            'inputs': {'program': cx.get('program'), 'layout': cx.get('layout', cx.get('what')), 'variant': cx.get('variant')},
+                            'replay': {'reproduced': True, 'observed': cx},
+                            'solver': {'backend': 'native-bounded', 'verdict': 'counterexample', 'output': ''}})
+    elif 'error' in res:
+        pr.errors.append('layout witness failed to run: ' + str(res['error'])[-400:])
+
+
 def run(tier):
     pr = PropertyRun('C10', tier, level='other')
     run_contracts_sel(pr, [PARSE_SCRIPT_BODY], tier, 'C10')
     stateless_obligations(pr)
+    layout_regex_obligations(pr)
+    layout_bounded(pr, tier)
     pr.explanation = ('Proved: a comment or blank line takes the early `continue` and changes neither the parser state nor the '
                       'heap (also inside a continued line); no function of parser.py stores to or mutates a module-level object '
-                      '(determinism and statelessness). Not decided by this family: LF/CRLF, chunking, indentation/trailing '
-                      'whitespace and continuation-point invariance are statements about regex transducers.')
+                      '(determinism and statelessness). Regex-language obligations (all strings): whitespace-only and indented comment lines are '
+                      'skipped and nothing else is; the optional expression of `return` is never a blank. Not decided by this family: '
+                      'LF/CRLF, chunking, indentation/trailing whitespace and continuation-point invariance in general are statements '
+                      'about regex transducers; a bounded native layout check (about 1000 variants) stands in, labelled bounded.')
     pr.assumptions += PARSER_ASSUMPTIONS + [
         'LF vs CRLF, chunk boundaries, indentation/trailing whitespace and breaking a line at any inter-token gap are properties of what the regexes extract from a padded line (group extraction); no contract within reach expresses them — not claimed',
     ]
